@@ -235,6 +235,15 @@ def capsule_tree(rng, base: str, symlinks=True, odd_names=True, root_via_symlink
                 os.makedirs(d)
                 idx_dirs.append(d)
                 link(target, os.path.join(d, "index.gemini" if nm == "idx-gemini-out" else "index.gmi"))
+        # an index file whose link target runs through an unresolvable link and then through an out-pointing one
+        d = os.path.join(rng.choice(dirs), "idx-loop-out")
+        if not os.path.lexists(d):
+            os.makedirs(d)
+            idx_dirs.append(d)
+            link("selfref", os.path.join(d, "selfref"))
+            link(outs[0], os.path.join(d, "outdir"))
+            secret = [f for f in out_files if os.path.dirname(f) == outs[0]][0]
+            link(os.path.join("selfref", "..", "outdir", os.path.basename(secret)), os.path.join(d, "index.gmi"))
         meta["index_link_dirs"] = idx_dirs
     root = real_root
     if root_via_symlink:
